@@ -41,11 +41,11 @@ NoTx == [cid |-> 0, tree |-> [t |-> "none"], set |-> [x |-> 0, v |-> 0], used |-
 
 VARIABLES roots, nrc, nkids, xs, covlT, covlX, queue, inflight, toDeref, locked, snap,
           nextId, nextCid, ncommits, nlocks, ideal, idealX, conflictT, conflictX, corrupt,
-          hdrMark, leaked, ncrash, hist
+          hdrMark, leaked, ncrash, wpend, hist
 
 vars == <<roots, nrc, nkids, xs, covlT, covlX, queue, inflight, toDeref, locked, snap,
           nextId, nextCid, ncommits, nlocks, ideal, idealX, conflictT, conflictX, corrupt,
-          hdrMark, leaked, ncrash, hist>>
+          hdrMark, leaked, ncrash, wpend, hist>>
 
 SeqSet(s) == {s[i] : i \in DOMAIN s}
 Hist(r) == IF NoHist THEN hist ELSE Append(hist, r)
@@ -95,7 +95,7 @@ Init ==
     /\ nextId = 1 /\ nextCid = 1 /\ ncommits = 0 /\ nlocks = 0
     /\ ideal = [k \in TKeys |-> NoRoot] /\ idealX = [x \in XKeys |-> 0]
     /\ conflictT = {} /\ conflictX = {} /\ corrupt = FALSE
-    /\ hdrMark = 1 /\ leaked = {} /\ ncrash = 0 /\ hist = <<>>
+    /\ hdrMark = 1 /\ leaked = {} /\ ncrash = 0 /\ wpend = <<>> /\ hist = <<>>
 
 --------------------------------------------------------------------------
 (* Client: commit_changes.  A transaction is one optional tree operation   *)
@@ -105,7 +105,12 @@ SetPart(x, v) == [x |-> x, v |-> v]
 NoSet == [x |-> 0, v |-> 0]
 
 \* root data is the commit id; node data is the node id (all distinct)
-CommitIns(k, sh, st) ==
+\* is_locked() of the reader lock is also true while the log worker holds the write lock
+UsedNow == IF "no_used" \in Mut THEN {}
+           ELSE {k2 \in TKeys : toDeref[k2] > 0 /\ k2 \in (locked \cup WLocked)}
+
+\* `used`: the trees marked in used_trees (read from the registry a little BEFORE the commit is queued)
+CommitInsU(k, sh, st, used) ==
     /\ ideal[k].rc = 0
     /\ k \notin locked     \* a key is not inserted again while a reader holds the old tree under it
     /\ LET f == Flat(sh, nextId)
@@ -114,9 +119,7 @@ CommitIns(k, sh, st) ==
                   tree |-> [t |-> "ins", k |-> k, root |-> root, new |-> f.new,
                            incs |-> IF AO THEN <<>> ELSE f.incs],
                   set |-> st,
-                  \* is_locked() is also true while the log worker holds the write lock
-                  used |-> IF "no_used" \in Mut THEN {}
-                           ELSE {k2 \in TKeys : toDeref[k2] > 0 /\ k2 \in (locked \cup WLocked)}] IN
+                  used |-> used] IN
        /\ f.next - 1 <= MaxIds
        /\ nkids' = [n \in Ids |-> IF \E i \in DOMAIN f.new : f.new[i].id = n
                                   THEN (CHOOSE e \in SeqSet(f.new) : e.id = n).kids ELSE nkids[n]]
@@ -127,6 +130,15 @@ CommitIns(k, sh, st) ==
        /\ queue' = Append(queue, tx)
        /\ hist' = Hist([a |-> "Commit", tx |-> tx, sh |-> sh])
     /\ UNCHANGED <<toDeref>>
+
+TwoStep == Fine /\ "F20" \notin Fix
+
+CommitIns(k, sh, st) == CommitInsU(k, sh, st, UsedNow)
+\* (two-step: only the insertion whose registry read is pending can be queued, with the set read then)
+InsNow(k, sh, st) ==
+    IF TwoStep
+    THEN wpend # <<>> /\ wpend[1].k = k /\ wpend[1].sh = sh /\ wpend[1].st = st /\ CommitInsU(k, sh, st, wpend[1].used)
+    ELSE CommitIns(k, sh, st)
 
 CommitDeref(k, st) ==
     /\ ~AO
@@ -164,11 +176,21 @@ CommitCommon(st) ==
 Commit ==
     /\ ncommits < MaxCommits
     /\ \E st \in {NoSet} \cup {SetPart(x, v) : x \in XKeys, v \in 1..NV} :
-       /\ \/ \E k \in TKeys : \E sh \in Shapes(Refable) : CommitIns(k, sh, st)
-          \/ \E k \in TKeys : CommitDeref(k, st)
-          \/ \E k \in TKeys : CommitRef(k, st)
-          \/ CommitSetOnly(st)
+       /\ \/ (\E k \in TKeys : \E sh \in Shapes(Refable) : InsNow(k, sh, st)) /\ wpend' = <<>>
+          \/ (\E k \in TKeys : CommitDeref(k, st)) /\ UNCHANGED wpend
+          \/ (\E k \in TKeys : CommitRef(k, st)) /\ UNCHANGED wpend
+          \/ CommitSetOnly(st) /\ UNCHANGED wpend
        /\ CommitCommon(st)
+
+\* Before the repair 6c749ae (F20) a tree insertion read the registry (used_trees) first and was
+\* queued later: another client's dereference could be committed in between.
+BeginIns(k, sh, st) ==
+    /\ TwoStep /\ wpend = <<>> /\ ncommits < MaxCommits
+    /\ ideal[k].rc = 0 /\ k \notin locked
+    /\ wpend' = <<[k |-> k, sh |-> sh, st |-> st, used |-> UsedNow]>>
+    /\ hist' = Hist([a |-> "BeginIns", k |-> k])
+    /\ UNCHANGED <<roots, nrc, nkids, xs, covlT, covlX, queue, inflight, toDeref, locked, snap, nextId, nextCid,
+                   ncommits, nlocks, ideal, idealX, conflictT, conflictX, corrupt, hdrMark, leaked, ncrash>>
 
 --------------------------------------------------------------------------
 (* Readers: get_tree(..).read() + get_root() under the lock                *)
@@ -180,14 +202,14 @@ Lock(k) ==
     /\ nlocks' = nlocks + 1
     /\ hist' = Hist([a |-> "Lock", k |-> k])
     /\ UNCHANGED <<roots, nrc, nkids, xs, covlT, covlX, queue, inflight, toDeref, nextId, nextCid,
-                   ncommits, ideal, idealX, conflictT, conflictX, corrupt, hdrMark, leaked, ncrash>>
+                   ncommits, ideal, idealX, conflictT, conflictX, corrupt, hdrMark, leaked, ncrash, wpend>>
 
 Unlock(k) ==
     /\ k \in locked
     /\ locked' = locked \ {k} /\ snap' = [snap EXCEPT ![k] = NoRoot]
     /\ hist' = Hist([a |-> "Unlock", k |-> k])
     /\ UNCHANGED <<roots, nrc, nkids, xs, covlT, covlX, queue, inflight, toDeref, nextId, nextCid,
-                   ncommits, nlocks, ideal, idealX, conflictT, conflictX, corrupt, hdrMark, leaked, ncrash>>
+                   ncommits, nlocks, ideal, idealX, conflictT, conflictX, corrupt, hdrMark, leaked, ncrash, wpend>>
 
 --------------------------------------------------------------------------
 (* Log worker: process_commits                                             *)
@@ -203,12 +225,13 @@ MustDefer(tx, rest) ==
 
 \* defer_commit: the whole commit goes to the back under a fresh id; its overlay entries are
 \* written again under the new id (over whatever is there) and the old-id entries removed
-Defer ==
+\* (the decision and its effect are separate operators: the trace specification of free-running threads
+\* places the decision between two hook events)
+DeferEffect ==
     /\ queue # <<>> /\ inflight = <<>>
     /\ LET tx == Head(queue)
            rest == Tail(queue)
            tx2 == [tx EXCEPT !.cid = nextCid] IN
-       /\ MustDefer(tx, rest)
        /\ rest # <<>>               \* alone in the queue: same id, nothing changes (the worker spins)
        /\ queue' = Append(rest, tx2)
        /\ covlX' = IF tx.set.x = 0 THEN covlX ELSE [covlX EXCEPT ![tx.set.x] = [cid |-> nextCid, v |-> tx.set.v]]
@@ -217,7 +240,9 @@ Defer ==
        /\ hist' = Hist([a |-> "Defer", cid |-> tx.cid, ncid |-> nextCid])
     /\ nextCid' = nextCid + 1
     /\ UNCHANGED <<roots, nrc, nkids, xs, covlT, inflight, toDeref, locked, snap, nextId, ncommits,
-                   nlocks, ideal, idealX, corrupt, hdrMark, leaked, ncrash>>
+                   nlocks, ideal, idealX, corrupt, hdrMark, leaked, ncrash, wpend>>
+
+Defer == queue # <<>> /\ MustDefer(Head(queue), Tail(queue)) /\ DeferEffect
 
 \* dereference walk: children in order; a node with one reference is freed and its children walked
 RECURSIVE Walk(_, _)
@@ -265,13 +290,15 @@ ApplyTx(tx) ==
     /\ covlX' = [x \in XKeys |-> IF covlX[x].cid = tx.cid THEN [cid |-> 0, v |-> 0] ELSE covlX[x]]
 
 \* Fine: the deferral check (with the commit popped) ...
-Pop ==
+PopEffect ==
     /\ Fine /\ queue # <<>> /\ inflight = <<>>
-    /\ PopOK(Head(queue), Tail(queue))
+    /\ toDeref' = IF Head(queue).tree.t = "deref" THEN [toDeref EXCEPT ![Head(queue).tree.k] = @ - 1] ELSE toDeref
     /\ inflight' = <<Head(queue)>> /\ queue' = Tail(queue)
     /\ hist' = Hist([a |-> "Pop", cid |-> Head(queue).cid])
     /\ UNCHANGED <<roots, nrc, nkids, xs, covlT, covlX, locked, snap, nextId, nextCid, ncommits,
-                   nlocks, ideal, idealX, conflictT, conflictX, corrupt, hdrMark, leaked, ncrash>>
+                   nlocks, ideal, idealX, conflictT, conflictX, corrupt, hdrMark, leaked, ncrash, wpend>>
+
+Pop == queue # <<>> /\ ~MustDefer(Head(queue), Tail(queue)) /\ PopEffect
 
 \* ... and the plan + end_record + overlay cleanup
 Apply ==
@@ -283,7 +310,7 @@ Apply ==
     /\ inflight' = <<>>
     /\ hdrMark' = nextId
     /\ UNCHANGED <<nkids, queue, toDeref, locked, snap, nextId, nextCid, ncommits, nlocks, ideal,
-                   idealX, conflictT, conflictX, leaked, ncrash>>
+                   idealX, conflictT, conflictX, leaked, ncrash, wpend>>
 
 \* coarse: one process_commits() call of the stepping API
 Process ==
@@ -295,7 +322,7 @@ Process ==
     /\ queue' = Tail(queue)
     /\ hdrMark' = nextId
     /\ UNCHANGED <<nkids, inflight, locked, snap, nextId, nextCid, ncommits, nlocks, ideal, idealX,
-                   conflictT, conflictX, leaked, ncrash>>
+                   conflictT, conflictX, leaked, ncrash, wpend>>
 
 \* Process crash and recovery (all logged records survive and are replayed; queued commits are lost).
 \* The value-table headers logged with every record carry the in-memory fill mark / free-list head,
@@ -311,12 +338,12 @@ Crash ==
     /\ covlX' = [x \in XKeys |-> [cid |-> 0, v |-> 0]]
     \* (the client's view is re-based on what was recovered; keys touched by the known reordering stay marked)
     /\ ideal' = roots /\ idealX' = xs
-    /\ ncrash' = ncrash + 1
+    /\ ncrash' = ncrash + 1 /\ wpend' = <<>>
     /\ hist' = Hist([a |-> "Crash"])
     /\ UNCHANGED <<roots, nkids, xs, inflight, locked, snap, nextId, nextCid, ncommits, nlocks,
                    conflictT, conflictX, corrupt, hdrMark>>
 
-Next == Commit \/ (\E k \in TKeys : Lock(k) \/ Unlock(k)) \/ Defer \/ Pop \/ Apply \/ Process \/ Crash
+Next == Commit \/ (\E k \in TKeys : \E sh \in Shapes(Refable) : \E st \in {NoSet} : BeginIns(k, sh, st)) \/ (\E k \in TKeys : Lock(k) \/ Unlock(k)) \/ Defer \/ Pop \/ Apply \/ Process \/ Crash
 
 Spec == Init /\ [][Next]_vars
 
@@ -375,5 +402,5 @@ Entries == Cardinality({n \in Ids : nrc[n] > 0}) + Cardinality({k \in TKeys : ro
 NoLeak == leaked = {}
 
 ViewNoHist == <<roots, nrc, nkids, xs, covlT, covlX, queue, inflight, toDeref, locked, snap,
-                nextId, nextCid, ncommits, nlocks, ideal, idealX, conflictT, conflictX, corrupt, hdrMark, leaked, ncrash>>
+                nextId, nextCid, ncommits, nlocks, ideal, idealX, conflictT, conflictX, corrupt, hdrMark, leaked, ncrash, wpend>>
 =============================================================================
